@@ -49,14 +49,14 @@ add("c02-take-load-then-add", ["C02"], W + "trigger_pool.go",
     "\treturn w.num.Add(-1) >= 0", "\tif w.num.Load() <= 0 {\n\t\treturn false\n\t}\n\tw.num.Add(-1)\n\n\treturn true")
 add("c02-drop-loop-numjobs", ["C02"], W + "trigger_pool.go",
     "\tfor range jobsDiscarded {", "\t_ = jobsDiscarded\n\tfor range numJobs {")
-add("c02-wait-in-if", ["C02", "C04", "C05"], W + "trigger_pool.go",
+add("c02-wait-in-if", ["C04", "C05"], W + "trigger_pool.go",
     "\tfor p.jobsToExecute.none() && p.running() {", "\tif p.jobsToExecute.none() && p.running() {")
 add("c02-limit-path-calls-stop", ["C02"], W + "trigger_pool.go",
     "\tp.jobsToExecute.set(0)\n\tp.workerCtxCancel()", "\tp.stop()\n\tp.workerCtxCancel()")
 add("c02-no-return-after-limit", ["C02", "C03"], W + "trigger_pool.go",
     "\t\t\t\tp.maxIterationsReached()\n\t\t\t\treturn\n\t\t\t}\n\n\t\t\titerationState.t.Reset",
     "\t\t\t\tp.maxIterationsReached()\n\t\t\t}\n\n\t\t\titerationState.t.Reset")
-add("c02-stop-flag-after-broadcast", ["C02", "C05"], W + "trigger_pool.go",
+add("c02-stop-flag-after-broadcast", ["C04", "C05"], W + "trigger_pool.go",
     "\tp.stopWorkers.Store(true)\n\tp.sendJobsForExecution(0)", "\tp.sendJobsForExecution(0)\n\tp.stopWorkers.Store(true)")
 add("c02-limit-path-cancel-first", ["C02"], W + "trigger_pool.go",
     "\tp.jobsToExecute.set(0)\n\tp.workerCtxCancel()", "\tp.workerCtxCancel()\n\tp.jobsToExecute.set(0)")
